@@ -1,0 +1,21 @@
+//! Verification hooks (retry): H-RETRY-INFO, a constructor for the `#[non_exhaustive]`
+//! [`RequestInfo`] so that an external harness can drive `RetrySession::decide_should_retry`
+//! of the built-in policies over whole error histories; see `verif/mod.rs`.
+
+use crate::errors::RequestAttemptError;
+use crate::frame::types::Consistency;
+use crate::policies::retry::RequestInfo;
+
+/// Builds the request-info value exactly as the execution loop does
+/// (`client/execution.rs`, "Use retry policy to decide what to do next").
+pub fn request_info<'a>(
+    error: &'a RequestAttemptError,
+    is_idempotent: bool,
+    consistency: Consistency,
+) -> RequestInfo<'a> {
+    RequestInfo {
+        error,
+        is_idempotent,
+        consistency,
+    }
+}
